@@ -69,6 +69,14 @@ def evalLength (ctx : Ctx) (toks : List String) : Option Result :=
       name ++ " " ++ b isErr ++ " " ++ b (val.isErrOn false) ++ " " ++ b (val.isErrOn true) ++ " " ++
         toString vp.minLen ++ " " ++ toString vp.minLenConservative ++ " " ++ toString P.raw.maxLength
     pure { model := run Gen.params, spec := some (run Ref.params) }
+  | ["huge", _vS, nS] => do
+    -- consequences of C11/C09 for a history of total size n (the model does not execute 4 GiB)
+    let n ← nS.toNat?
+    let plen := if n < 2 ^ 32 then toString n else "none"
+    let tl := if n > Ref.maxLength then "1" else "0"
+    let lv := if n > Ref.maxLength then "-" else toString (Spec.lengthCode n)
+    let r := plen ++ " toolarge=" ++ tl ++ " lvalue=" ++ lv
+    pure { model := r, spec := some r }
   | _ => none
 
 end TlshVerif.Driver
